@@ -25,6 +25,14 @@ def _W(spec):
     return order, np.asarray(order.ordering_cone.W, float)
 
 
+def _values(case):
+    """(values as passed to the library, values before the translation): gaps and coverage depend on differences only,
+    so bands and eps are scaled by the un-translated values."""
+    V0 = np.array(case["values"], float)
+    off = np.array(case.get("offset") or [0.0] * V0.shape[1], float)
+    return V0 + off, V0
+
+
 def oracle_gaps(W, V):
     al, lb, ub = geom.cone_alpha(W)
     n = len(V)
@@ -57,15 +65,15 @@ def check_gap(case):
 
     spec = case["cone"]
     order, W = _W(spec)
-    V = np.array(case["values"], float)
-    labels = list(gen.cone_labels(spec))
+    V, V0 = _values(case)
+    labels = list(gen.cone_labels(spec)) + (["far-from-origin"] if case.get("offset") else [])
     alpha = order.ordering_cone.alpha
     got = np.asarray(get_delta(V.copy(), W, alpha), float)
     n = len(V)
     if got.shape != (n, 1):
         return Result.violation("C19:gap:shape", f"{got.shape}", labels)
     ref, arg, al = oracle_gaps(W, V)
-    scale = max(1.0, float(np.abs(V).max()))
+    scale = max(1.0, float(np.abs(V0).max()))
     if np.max(np.abs(got[:, 0] - ref)) > 1e-6 * scale:
         i = int(np.argmax(np.abs(got[:, 0] - ref)))
         return Result.violation("C19:gap:value", f"design {i}: get_delta {got[i, 0]} oracle {ref[i]} values={V.tolist()} W={W.tolist()}", labels)
@@ -107,10 +115,10 @@ def check_cover(case):
 
     spec = case["cone"]
     order, W = _W(spec)
-    V = np.array(case["values"], float)
+    V, V0 = _values(case)
     n = len(V)
-    labels = list(gen.cone_labels(spec))
-    scale = max(1e-9, float(np.abs(V).max()))
+    labels = list(gen.cone_labels(spec)) + (["far-from-origin"] if case.get("offset") else [])
+    scale = max(1e-9, float(np.abs(V0).max()))
     # critical distances
     dist = np.zeros((n, n))
     for i in range(n):
@@ -161,11 +169,21 @@ def check_f1(case):
 
     spec = case["cone"]
     order, W = _W(spec)
-    V = np.array(case["values"], float)
+    V, V0 = _values(case)
     n = len(V)
-    labels = list(gen.cone_labels(spec))
-    scale = max(1e-9, float(np.abs(V).max()))
+    labels = list(gen.cone_labels(spec)) + (["far-from-origin"] if case.get("offset") else [])
+    scale = max(1e-9, float(np.abs(V0).max()))
     ds = hdata.make_dataset_class(np.arange(n)[:, None] / max(1, n), V)()
+    # history independence: a score must not depend on what was scored before - first score a different value set of the
+    # same shape, placed at the same offset (memoised intermediate results keyed on "close" data would leak)
+    if case.get("decoy"):
+        Vd = np.array([case["decoy"][k % len(case["decoy"])] for k in range(n)], float)[:, : V.shape[1]] + (V - V0)[0]
+        dsd = hdata.make_dataset_class(np.arange(n)[:, None] / max(1, n), Vd)()
+        try:
+            calculate_epsilonF1_score(dsd, order, np.array([0], dtype=int), np.array(list(range(n)), dtype=int), 0.1 * scale)
+        except Exception:  # noqa: BLE001 - the decoy call is only there to leave state behind
+            pass
+        labels.append("after-decoy-call")
     D = geom.dominance_matrix(V, W)
     strict = D & ~D.T
     Vf = np.abs((V[:, None, :] - V[None, :, :]) @ W.T)
@@ -375,11 +393,17 @@ def st_unit_cone(m=None):
 
 
 @st.composite
+def st_far(draw, m):
+    off = draw(st.sampled_from([0, 0, 0, 1000, 1000000]))
+    return [draw(st.sampled_from([1.0, -1.0])) * off for _ in range(m)] if off else None
+
+
+@st.composite
 def st_gap(draw):
     spec = draw(st_unit_cone())
     m = gen.spec_dim(spec)
     vals = draw(st_values(m))
-    return {"cone": spec, "values": vals, "pairs": [[draw(st.integers(0, 7)), draw(st.integers(0, 7))] for _ in range(4)],
+    return {"cone": spec, "values": vals, "offset": draw(st_far(m)), "pairs": [[draw(st.integers(0, 7)), draw(st.integers(0, 7))] for _ in range(4)],
             "dirs": [[draw(st.floats(-1, 1)) for _ in range(m)] for _ in range(6)]}
 
 
@@ -394,7 +418,7 @@ def st_cover(draw):
     m = gen.spec_dim(spec)
     vals = draw(st_values(m, 6))
     ints = st.integers(0, 5)
-    return {"cone": spec, "values": vals, "eps_sel": draw(st_eps_sel()),
+    return {"cone": spec, "values": vals, "offset": draw(st_far(m)), "eps_sel": draw(st_eps_sel()),
             "pairs": [[draw(ints), draw(ints)] for _ in range(5)],
             "p": draw(st.lists(ints, min_size=1, max_size=4)), "ph": draw(st.lists(ints, min_size=0, max_size=4))}
 
@@ -404,7 +428,8 @@ def st_f1(draw):
     spec = draw(st_unit_cone())
     m = gen.spec_dim(spec)
     vals = draw(st_values(m, 7))
-    return {"cone": spec, "values": vals, "eps_sel": draw(st_eps_sel()), "eps_up": draw(st.sampled_from([1.0, 1.5, 3.0, 10.0])),
+    return {"cone": spec, "values": vals, "offset": draw(st_far(m)), "decoy": draw(st.one_of(st.none(), st_values(m, 7))),
+            "eps_sel": draw(st_eps_sel()), "eps_up": draw(st.sampled_from([1.0, 1.5, 3.0, 10.0])),
             "pred_kind": draw(st.sampled_from(["truth", "empty", "all", "subset", "subset", "subset"])),
             "pred": draw(st.lists(st.integers(0, 6), min_size=1, max_size=6)),
             "perm": draw(st.lists(st.integers(0, 100), min_size=0, max_size=7))}
